@@ -89,6 +89,29 @@ fn drive_stats<T>(st: &AtomicU64, sc: &AtomicU64, o: &Outcome<T>) {
     }
 }
 
+
+/// C01 (thread part): after every worker joined, every future has been dropped (many of them
+/// cancelled on threads other than the one that notified them): the wait queues must be empty.
+fn queues_empty(ctx: &mut Ctx, what: &'static str, inspect: &mut dyn FnMut(&mut dyn FnMut(Visit) -> bool)) {
+    let mut prim = futures_intrusive::verif::PrimInfo::default();
+    let mut nodes = 0usize;
+    inspect(&mut |v| match v {
+        Visit::Prim(p) => {
+            prim = p;
+            true
+        }
+        Visit::Addr(..) => {
+            nodes += 1;
+            false // never dereference: every future is gone, any entry is dangling
+        }
+        _ => true,
+    });
+    let clean = nodes == 0 && prim.head == 0 && prim.tail == 0 && prim.head2 == 0 && prim.tail2 == 0;
+    ctx.check("C01", "wait-queues-empty-after-all-threads-dropped-their-futures", true, clean, || {
+        format!("{}: {} dangling queue entries (head {:#x} tail {:#x} head2 {:#x}) after all futures were dropped", what, nodes, prim.head, prim.tail, prim.head2)
+    });
+}
+
 // ------------------------------------------------------------------ mutex (C02, C03)
 pub fn wl_mutex<M: RawMutex + Send + Sync + 'static>(seed: u64, n: usize, rounds: usize, fair: bool, ctx: &mut Ctx, st: &mut ConcStats) -> Option<Violation> {
     let m: GenericMutex<M, u64> = GenericMutex::new(0, fair);
@@ -175,6 +198,7 @@ pub fn wl_mutex<M: RawMutex + Send + Sync + 'static>(seed: u64, n: usize, rounds
     st.cancelled += cancelled.load(Relaxed);
     st.completed += completed.load(Relaxed);
     let names = ["try_lock", "lock"];
+    queues_empty(ctx, "mutex", &mut |v| m.verif_inspect(v));
     let total = acquired.load(Relaxed);
     let value = *m.try_lock().expect("mutex free after the run");
     let ov = overlap.load(Relaxed);
@@ -326,6 +350,7 @@ pub fn wl_semaphore<M: RawMutex + Send + Sync + 'static>(seed: u64, n: usize, ro
     st.cancelled += cancelled.load(Relaxed);
     st.completed += completed.load(Relaxed);
     let names = ["try_acquire", "acquire"];
+    queues_empty(ctx, "semaphore", &mut |v| sem.verif_inspect(v));
     let ov = over.load(Relaxed);
     ctx.check("C05", "permits-in-use-never-exceed-total", true, ov == 0, || format!("{} times more than {} permits were held at once", ov, total));
     let p = sem.permits();
@@ -514,6 +539,7 @@ pub fn wl_mpmc<M: RawMutex + Send + Sync + 'static, A: RingBuf<Item = u64> + Sen
     st.cancelled += cancelled.load(Relaxed);
     st.completed += completed.load(Relaxed);
     let names = ["try_send", "send", "receive", "try_receive", "close"];
+    queues_empty(ctx, "mpmc channel", &mut |v| ch.verif_inspect(v));
     // ledger
     let mut sent: HashMap<u64, u64> = HashMap::new(); // tag -> ret stamp of the send
     let mut sent_call: HashMap<u64, u64> = HashMap::new();
@@ -705,6 +731,7 @@ pub fn wl_event<M: RawMutex + Send + Sync + 'static>(seed: u64, n: usize, rounds
     st.cancelled += cancelled.load(Relaxed);
     st.completed += completed.load(Relaxed);
     let names = ["set", "reset", "wait"];
+    queues_empty(ctx, "event", &mut |v| ev.verif_inspect(v));
     let e = early.load(Relaxed);
     ctx.check("C14", "no-wait-completes-before-the-first-set-was-called", true, e == 0, || format!("{} waits completed although no set() had been called yet", e));
     match verdict {
@@ -1115,6 +1142,7 @@ pub fn wl_timer(seed: u64, n: usize, rounds: usize, ctx: &mut Ctx, st: &mut Conc
     st.cancelled += cancelled.load(Relaxed);
     st.completed += completed.load(Relaxed);
     let names = ["deadline"];
+    queues_empty(ctx, "timer", &mut |v| svc.verif_inspect(v));
     let e = early.lock().unwrap().clone();
     ctx.check("C15", "timer-never-completes-before-its-deadline", true, e.is_empty(), || e.join(" | "));
     let ne = svc.next_expiration();
